@@ -426,7 +426,7 @@ def impl_run(case):
         sh = r.shape
         if case["A"]["fmt"] == "csc":
             D, sh = D.T, sh[::-1]
-        return {"dense": [[frac(x) for x in row] for row in D], "nrows": int(sh[0]), "ncols": int(sh[1])}
+        return {"dense": [[frac(x) for x in row] for row in D], "nrows": int(sh[0]), "ncols": int(sh[1]), "wf_out": _wf(r)}
     if fn == "opt":
         return {"fmt": r.format}
     raise AssertionError(fn)
@@ -563,7 +563,8 @@ def _expect_error(case):
         return "IndexError" if not case["cols"] else None
     if fn in ("rldecode", "bdi"):
         a, b = (case["a"], case["n"]) if fn == "rldecode" else (case["m"], case["n"])
-        return "IndexError" if len(a) != len(b) else None  # np.repeat raises ValueError for the same input
+        # A[flatnonzero(n > 0)[...]]: a positive count beyond the end of A is an out-of-bounds index
+        return "IndexError" if any(c > 0 for c in b[len(a):]) else None
     if fn == "slice_indices_mask":
         return "IndexError" if len(case["mask"]) != major(case["A"]) else None
     if fn == "eip":
@@ -694,6 +695,8 @@ def oracle(case):
         a = np.array(case["a"], dtype=int).reshape(len(case["a"]), max(case["w"], 1))
         if case["w"] == 0:
             a = a[:, 0]
+        if len(case["a"]) != len(case["n"]):
+            return None  # malformed input that the code happens to accept (no positive count beyond the end of A): no dense reference exists
         ref = np.repeat(a, np.maximum(_ia(case["n"]), 0), axis=0)
         got = np.asarray(r)
         if got.shape != ref.shape or not np.array_equal(got, ref):
@@ -712,6 +715,8 @@ def oracle(case):
     if fn in ("bdi", "bdi_sq"):
         m = case["m"]
         n = case["n"] if fn == "bdi" else m
+        if len(m) != len(n):
+            return None  # malformed input that the code happens to accept: no dense reference exists
         wi, wj, ro, co = [], [], 0, 0
         for mk, nk in zip(m, n):
             for c in range(nk):
